@@ -129,8 +129,9 @@ def jobs_for(t):
     else:
         for g in family(3):
             jobs.append((g, "all", TIMEOUT_MS[t]))
-        for g in family(4, n_min=4):
-            jobs.append((g, "diag", TIMEOUT_MS[t]))
+        for i, g in enumerate(family(4, labellings=("fwd",), n_min=4)):
+            if i % 4 == seed() % 4:
+                jobs.append((g, "diag", TIMEOUT_MS[t]))
         for name, g in CURATED.items():
             jobs.append((g, "diag", TIMEOUT_MS[t]))
     return jobs
@@ -145,7 +146,7 @@ def run() -> int:
         "returned Expression -> z3 polynomial terms (vf/sem/denote.py)",
     ]
     rep.bounds = {
-        "graphs": "quick: every ADMG <=3 nodes (two labellings) + curated 4-node graphs + 1/32 of the 4-node classes; thorough: every ADMG <=4 nodes under two labellings + curated list incl. 5-node graphs",
+        "graphs": "quick: every ADMG <=3 nodes (two labellings) + curated 4-node graphs + 1/32 of the 4-node classes; thorough: every ADMG <=3 nodes under two labellings, 1/4 of the 4-node classes (slice chosen by VERIF_SEED) + curated list incl. 5-node graphs",
         "queries": "all pairwise disjoint (X, Y, Z), Y and Z non-empty, X possibly empty",
         "models": "all positive binary SCMs, one binary latent per bidirected edge",
         "value_assignments": "<=3 nodes: all; larger: the all-equal assignments",
